@@ -29,7 +29,9 @@ PROP = {
              "clamp; loss compensation off in a fifth) driven by a loop that mirrors quic-go: "
              "CanSend(bytesInFlight) -> HasPacingBudget(now) -> OnPacketSent(now, inFlightAfter, pn, size, "
              "ackEliciting); when pacing limited it sleeps until TimeUntilSend() (exactly, or up to 2 ms late, or cut "
-             "short by an ack event), occasionally emitting an un-paced ACK-only packet as quic-go does; when window "
+             "short by an ack event), occasionally emitting an un-paced ACK-only packet as quic-go does; of the packets sent through the OPEN gate a "
+             "per-trace share of 0 / 25 / 75 / 100 % (or bursts of 4..300) is not ack-eliciting (isRetransmittable=false, "
+             "25 B..one datagram, never in flight, never acknowledged) and counts in full towards the envelope; when window "
              "limited it waits for acks; the application alternates bursts of 1..2000 packets, bucket-draining "
              "backlogs and idle gaps from 0 up to the edge of the stated range rate x gap < 2^63; acks/losses arrive "
              "one network RTT later in coalesced batches through OnCongestionEventEx after the RTT estimate was "
@@ -50,7 +52,10 @@ PROP = {
              "traffic so the server also emits ACK-only packets); Brutal rates 0.3/1/4/12 MB/s; a monitor embedding the "
              "real BrutalSender is installed with SetCongestionControl after Accept (as UseBrutal does) and checks the "
              "factor against the reference model, window >= datagram, and 'pacing limited => future wake-up with budget' "
-             "on the calls quic-go actually makes (no byte envelope there). A trace is non-trivial when it reached the pacing-limited state and saw ack events "
+             "on the calls quic-go actually makes, plus the byte envelope over the packets released through the open "
+             "gate (OnPacketSent at the instant of a preceding HasPacingBudget==true; un-gated ACK-only packets and PTO "
+             "probes excluded); two extra transfers per variant make the server (Brutal at 64 / 100 KB/s) mostly a "
+             "receiver of an 8..12 MB client upload, so nearly everything it releases is ACK-only. A trace is non-trivial when it reached the pacing-limited state and saw ack events "
              "(sendloop), drove the factor below 1 (ackrate), raised the datagram size while the floor was binding (window), closed the pacing gate (pacer), or completed its transfer with >= 20 checked announcements and >= 50 ack "
              "events (real-quic); distinct = distinct "
              "parameter vector / event script."),
@@ -61,7 +66,8 @@ PROP = {
         "packet out before an idle gap would leave that range",
         "every packet handed to OnPacketSent after passing the pacing gate is at most one datagram "
         "(SetMaxDatagramSize value, 1280 before the first call); an MTU probe larger than that counts as one "
-        "datagram of pacing-released bytes, ACK-only packets sent while pacing/window limited count as none",
+        "datagram of pacing-released bytes, ACK-only packets sent while pacing/window limited (without asking the gate) "
+        "count as none; packets that did pass the gate count whether or not they are ack-eliciting",
         "burst bound B = max(4 ms x bps/0.8, 10 x largest datagram size of the trace) + one datagram "
         "(full bucket plus one datagram of overshoot a correct token bucket may allow)",
         "'roughly the last five seconds' is read as the anchors put it: five one-second slots keyed by the integer "
